@@ -63,3 +63,9 @@ Lemma c11_nonvacuous_parts_lemma :
   move_ok (m_body ex_list) (create_group ex_body true) = true /\
   count_fields (obj_of (m_body ex_list)) = 11.
 Proof. repeat split; vm_compute; reflexivity. Qed.
+
+(* copy_legal dereferences to->find_group(fnum) == nullptr: the deep-constructed target header does
+   not pre-create the group (FIX44 NoHops); the original encodes fine, its clone() crashes *)
+Lemma c11_clone_target_group_refuted_lemma :
+  exists c m, enc_of c m <> [] /\ clone c m = OOB site_target_group.
+Proof. exists ex_ctx_h, hb_hops. split; [vm_compute; discriminate|vm_compute; reflexivity]. Qed.
